@@ -138,7 +138,7 @@ static void model_case_impl(Case& c, int l0pass, std::vector<std::string>* snaps
         // SEI: a herd of exposed-only hosts moved into a cell without any host, early in the run, so that its
         // cohorts mature in the NEW cell later on (the target must become a suitable cell although it never
         // holds a susceptible or infected host at the time of the move)
-        if (sei && !h.e.empty() && rows * cols >= 2 && rng.coin(45)) {
+        if (l0pass == 0 && sei && !h.e.empty() && rows * cols >= 2 && rng.coin(45)) {  // not in the L0 = SI differential: both passes must consume the random stream identically
             int a = rng.in(0, rows * cols - 1), b = rng.in(0, rows * cols - 2); if (b >= a) b++;
             int ar = a / cols, ac = a % cols, br = b / cols, bc = b % cols;
             h.s(ar, ac) = 0; h.i(ar, ac) = 0; h.r(ar, ac) = 0; for (auto& m : h.m) m(ar, ac) = 0;
